@@ -297,7 +297,7 @@ func init() {
 		}
 		n, nh := 1500, 600
 		if thorough() {
-			n, nh = 8000, 3000
+			n, nh = 60000, 20000
 		}
 		var jobs []func()
 		for i := 0; i < n; i++ {
